@@ -27,6 +27,22 @@ PROPS = {
                        "canonical-form writer checked on bounded symbolic graphs against an independent PCF oracle.",
         "not_decided": ["invariance of the fingerprint under JSON re-spelling (goes through the serde_json parser, C07)"],
     },
+    "C11": {
+        "level": "proof",
+        "design_ref": "DESIGN.md §3 C11",
+        "technique": "relational Kani contract harnesses: real SliceRead vs real ReaderRead over a chunked BufRead double, per reader primitive",
+        "level_text": "Deductive proof per reader primitive (the only way the generic deserializer touches its input): for every byte string the primitive can examine "
+                      "and every refill size (thorough: every partition into refills), slice and streamed readers return the same value and consume the same "
+                      "number of bytes, or both fail. Varints and fixed-size reads are complete (operand-width bounded, unwinding assertions on); "
+                      "read_slice/skip_bytes are bounded by input length and labelled so.",
+        "level_note": "Composition from primitives to whole datums is parametricity of the generic deserializer in R (A6, not machine-checked); A1 A3 A4 A8. "
+                      "Container-file input is covered through the same primitives plus C17's state-machine contracts.",
+        "assumptions": [A1, A3, A4, A6, A7, A8],
+        "explanation": "Each of read_varint::<i32|i64|u32|u64>, read_const_size_buf::<4|8|12|16>, read_slice, skip_bytes is checked relationally "
+                       "between the two real implementations, plus the single-object reader entry point.",
+        "not_decided": ["lifting primitive equivalence to whole-datum equivalence (parametricity, A6)",
+                        "Take / into_left_after_take sub-readers are covered under C17"],
+    },
     "C18": {
         "level": "proof",
         "design_ref": "DESIGN.md §3 C18",
